@@ -777,7 +777,7 @@ func enclosingFunc(x *Ctx, pkgPath string, file *ast.File, pos token.Pos) string
 	consider := func(f *ssa.Function) {
 		var walk func(g *ssa.Function)
 		walk = func(g *ssa.Function) {
-			if syn := g.Syntax(); syn != nil && syn.Pos() <= pos && pos < syn.End() {
+			if syn := g.Syntax(); g.Synthetic == "" && syn != nil && syn.Pos() <= pos && pos < syn.End() {
 				if size := syn.End() - syn.Pos(); size < bestSize {
 					bestSize, best = size, load.ShortName(g)
 				}
